@@ -39,6 +39,8 @@ def plan(prop):
         for k, closed in shapes[:3]:
             obs.append((core, lambda ctx, k=k, c=closed: co.ob_capacity_gate(ctx, k, c)))
     if prop == 'C05':
+        for k, closed in [(0, True), (2, True), (1, False)]:
+            obs.append((core, lambda ctx, k=k, c=closed: co.ob_deep_copy(ctx, k, c)))
         for n in (1, 2, 3):
             obs.append((core, lambda ctx, n=n: co.ob_accept_route_state(ctx, n)))
     if prop == 'C01':
@@ -51,6 +53,9 @@ def plan(prop):
             obs.append((core, lambda ctx, k=k, c=closed: co.ob_distance_estimate(ctx, k, c, bits)))
         for k, closed in [(k, c) for k, c in shapes if k <= 2]:
             obs.append((core, lambda ctx, k=k, c=closed: co.ob_cost_estimate(ctx, k, c, 16, rates)))
+    if prop == 'C16':
+        for n in ((2, 3) if Q else (2, 3, 4)):
+            obs.append((core, lambda ctx, n=n: co.ob_time_aware_provider(ctx, n)))
     if prop == 'C09':
         import ieee_obligations as io
         for n in ((1, 2) if Q else (1, 2, 3)):
